@@ -487,7 +487,8 @@ void SimulateMsp430::update_reg(int reg_index, int mode, int bw)
 
   if (mode == 3) // @Rn+
   {
-    if (bw == BW_WORD)
+    // The stack pointer stays word aligned: pop.b also adds 2.
+    if (bw == BW_WORD || reg_index == 1)
     {
       reg[reg_index] += 2;
     }
